@@ -82,6 +82,21 @@ def directed(rng, text, toks):
     return out
 
 
+HASH = __import__("re").compile(r"hash-[0-9a-f]{64}")
+
+
+def canon_hashes(yaml_text):
+    """generated names of implicit components (hash of the module URL and node) are renamed by first
+    occurrence: the CLI and the playground compile the same text at different locations"""
+    names = {}
+
+    def sub(m):
+        if m.group(0) not in names:
+            names[m.group(0)] = "hash-%d" % len(names)
+        return names[m.group(0)]
+    return HASH.sub(sub, yaml_text)
+
+
 def obs_record(src, o):
     r = {"predicted": src.get("predicted", ""), "cli": [], "wasm": "none", "lsp": "none"}
     for c in o["cli"]:
@@ -177,7 +192,7 @@ def run(tier):
         c0 = [c for c in o["cli"] if not c["base"] and c["exit"] == 0 and c["target"] is not None]
         if w is not None and w.get("outcome") == "ok" and w.get("api") and c0:
             ndoc += 1
-            if any(c["target"] != w["api"] for c in c0):
+            if any(canon_hashes(c["target"]) != canon_hashes(w["api"]) for c in c0):
                 chk.violation("C13|document-differs", "oal-cli and the playground entry point emit different documents for %r" % s["files"]["main.oal"][:70],
                               {"files": s["files"], "cli": c0[0]["target"], "wasm": w["api"]})
     chk.cov["evaluations"] = len(sources) * (len(configs) + 2)
@@ -193,6 +208,7 @@ def run(tier):
         "a diagnostic is 'located in the sources' when stderr names one of the source modules by URL (with line and column whenever the span is not empty)",
         "the playground entry point is compared on single-file sources only (it has no file system)",
         "configuration errors (no main/target given, unreadable base) are outside the property's domain",
+        "CLI and playground documents are compared up to the generated names of implicit components (hash of module URL and node): the two front ends necessarily compile the text at different locations",
     ]
     return chk.finish()
 
